@@ -42,7 +42,7 @@ theorem ticket_counters_locked : Ebu.Locks.Discipline Ebu.Generated.accessFacts 
 /-- OBLIGATION: the ticket is taken by the publisher (in dispatch order, before `go`), the turn is awaited inside the goroutine before the handler call, and released by a `defer` registered right after -/
 theorem flow_ticket_discipline : Ebu.Flow.ticketDiscipline = true := by decide +kernel
 
-/-- OBLIGATION: the Sequential mutex is taken in `callHandlerWithContext` and unlocked by a `defer` registered right after the lock -/
+/-- OBLIGATION: the Sequential mutex is taken first thing in `callHandlerWithContext` and unlocked by a `defer` registered right after the lock; the context is checked again once it is held -/
 theorem flow_handler_mutex : Ebu.Flow.handlerBracket = true := by decide +kernel
 
 /-- OBLIGATION: `awaitTurn` re-checks `seqServing` in a loop around `seqCond.Wait` and `releaseTurn` advances `seqServing` and BROADCASTS under `seqMu`: M2's turn step is enabled exactly when `serving = ticket`, which needs every waiting goroutine to be woken, not just one -/
